@@ -242,6 +242,18 @@ Section Sem.
       directories are followed), [d] = depth of the direct contents of [t]:
       a file is included iff its depth is at least [mn]; the contents of a sub directory is
       included iff the depth of the sub directory is not [mx] and it is not pruned. *)
+  (** Is the entry a directory (links followed)?  Undefined (HARD_ERROR, deliberately raised by the
+      generator) for a link whose resolution fails with something else than "no such file". *)
+  Definition dir_test_spec (c : tree) (p : path) : option bool :=
+    match resolve c with
+    | Some (Dir _) => Some true
+    | Some _ => Some false
+    | None => match link_error O p with
+              | Some false => Some false
+              | _ => None
+              end
+    end.
+
   Fixpoint walk (prune : elem -> option bool) (mn mx : option nat) (t : tree) (rel abs : path) (d : nat)
            {struct t} : option (list elem) :=
     match t with
@@ -253,13 +265,16 @@ Section Sem.
                let e := Elem (rel ++ [fst p]) (abs ++ [fst p]) (snd p) in
                let here := if in_min mn d then [e] else [] in
                let below :=
-                 if negb (at_max mx d) && is_dir (snd p)
-                 then match prune e with
-                      | Some false => walk prune mn mx (snd p) (rel ++ [fst p]) (abs ++ [fst p]) (S d)
-                      | Some true => Some []
-                      | None => None
-                      end
-                 else Some [] in
+                 match (if at_max mx d then Some false else dir_test_spec (snd p) (abs ++ [fst p])) with
+                 | Some true =>
+                     match prune e with
+                     | Some false => walk prune mn mx (snd p) (rel ++ [fst p]) (abs ++ [fst p]) (S d)
+                     | Some true => Some []
+                     | None => None
+                     end
+                 | Some false => Some []
+                 | None => None
+                 end in
                match below, go es' with
                | Some b, Some r => Some (here ++ b ++ r)
                | _, _ => None
@@ -514,6 +529,7 @@ Record mcase := MCase {
   mc_re_path : list (nat * path * bool);
   mc_text : list (nat * list N * option bool);       (* [None]: the text matcher gave HARD_ERROR *)
   mc_run : list (nat * path * option bool);
+  mc_linkerr : list (nat * path * bool);             (* key 0; for every link of the tree that does not resolve *)
   mc_verdict : verdict }.
 
 Fixpoint tab_str (tab : list (nat * name * bool)) (k : nat) (s : name) : option bool :=
@@ -549,7 +565,7 @@ Definition id_order : path -> dirc -> dirc := fun _ l => l.
 
 Definition mc_oracles (c : mcase) : oracles :=
   Oracles (tab_str (mc_glob_str c)) (tab_path (mc_glob_path c)) (tab_str (mc_re_str c)) (tab_path (mc_re_path c))
-          (tab_str2 (mc_text c)) (tab_path2 (mc_run c)).
+          (tab_str2 (mc_text c)) (tab_path2 (mc_run c)) (tab_path (mc_linkerr c) 0).
 
 Definition check_mcase (c : mcase) : bool * bool :=
   let O := mc_oracles c in
@@ -576,7 +592,8 @@ Record rcase := RCase {
   rc_verdict : verdict }.
 
 Definition no_oracles : oracles :=
-  Oracles (fun _ _ => None) (fun _ _ => None) (fun _ _ => None) (fun _ _ => None) (fun _ _ => None) (fun _ _ => None).
+  Oracles (fun _ _ => None) (fun _ _ => None) (fun _ _ => None) (fun _ _ => None) (fun _ _ => None) (fun _ _ => None)
+          (fun _ => None).
 
 Definition check_rcase (c : rcase) : bool * bool :=
   match run_instrs (rc_instrs c) (Dir []) with
